@@ -1250,7 +1250,29 @@ package cdi
 //@   ensures[C16] implies(err != nil, fs == old(fs))
 //@ func (c *Cache) GetSpecErrors(spec *Spec) (r []error)
 //@   requires c != nil && spec != nil
+// C01: the class listing is exactly the classes of the Specs in the per-vendor index (every class once or more,
+// nothing else), in sort.Strings order. #seen1/#key1 are the keys already delivered by the range over c.specs.
+//@ pred ClassAt(c *Cache, v string, i int, k string) = has(c.specs, v) && 0 <= i && i < len(c.specs[v]) && c.specs[v][i].class == k
+//@ pred ClassIn(c *Cache, k string) = exists(v, string, true, exists(i, true, ClassAt(c, v, i, k)))
 //@ func (c *Cache) ListClasses() (r []string)
 //@   requires c != nil && CacheRep(c)
+//@   ghostwrites maxP, cnt, first, scanMark
+//@   ensures[C01] forall(k, string, true, iff(ClassIn(c, k), Lists(r, len(r), k)))
+//@   loop 1 invariant[only C01] cmap != nil && fresh(cmap)
+//@   loop 1 invariant[only C01] forall(k, string, has(cmap, k), ClassIn(c, k))
+//@   loop 1 invariant[only C01] forall(v, string, has(#seen, v), forall(i, 0 <= i && i < len(c.specs[v]), has(cmap, c.specs[v][i].class)))
+//@   loop 1 invariant[only C01] forall(v, string, has(#seen, v), has(c.specs, v))
+//@   loop 2 invariant[only C01] cmap != nil && fresh(cmap)
+//@   loop 2 invariant[only C01] has(c.specs, #key1) && specs == c.specs[#key1] && has(#seen1, #key1)
+//@   loop 2 invariant[only C01] forall(k, string, has(cmap, k), ClassIn(c, k))
+//@   loop 2 invariant[only C01] forall(v, string, has(#seen1, v) && v != #key1, forall(i, 0 <= i && i < len(c.specs[v]), has(cmap, c.specs[v][i].class)))
+//@   loop 2 invariant[only C01] forall(i, 0 <= i && i < #i, has(cmap, specs[i].class))
+//@   loop 2 invariant[only C01] forall(v, string, has(#seen1, v), has(c.specs, v))
+//@   loop 3 invariant[only C01] base(classes) == 0 || fresh(classes)
+//@   loop 3 invariant[only C01] forall(k, string, true, iff(has(#seen, k), Lists(classes, len(classes), k)))
+//@   loop 3 invariant[only C01] forall(k, string, has(#seen, k), has(cmap, k))
+//@   loop 3 invariant[only C01] forall(k, string, true, iff(has(cmap, k), ClassIn(c, k)))
+//@   assert[only C01] at return: forall(k, string, true, iff(has(cmap, k), ClassIn(c, k)))
+//@   assert[only C01] at return: forall(k, string, true, iff(has(cmap, k), Lists(r, len(r), k)))
 //@ func Configure(options []Option) (err error)
 //@   requires OptionsOK(options)
